@@ -208,7 +208,7 @@ def _shard(ctx, shard, nshards):
 
     def factory():
         @seed(runner.hseed(ctx, 20))
-        @runner.hsettings(ctx.scale(1500, 8000))
+        @runner.hsettings(ctx.scale(1500, 30000))
         @given(tapes(900))
         def test(data):
             case = build_case(data)
